@@ -9,6 +9,7 @@ machine over all token trees).  Decided on the MIR of `indextree_macros::tree` a
   (6) stack discipline: initial stack = nodes reversed; marker pushed below the children on the stack the loop pops; children reversed, taken from the popped node;
       Append carries the popped node's expression
   (7) cursor machine: Append assigns `last = node.append_value(expr, arena)`, Nest assigns `node = last`, Parent assigns `node = <parent of node>`; the block's value is the root id
+  (8) no function other than the analysed templates (Action::to_stream, tree) emits tokens
   (4) the templates name only the API functions append_value, new_node, get, parent, unwrap (read from the identifier constants emitted by quote!)
 """
 from vlib import facts, rules
@@ -199,6 +200,13 @@ def main(tier):
         tail = [t_ for t_ in tt if t_ not in ("(group)", "#expr")]
         run.ob("cursor-machine", "the macro's value is the root id", len(tail) >= 1 and tail[-1] not in (X, Y, ";") and has_subseq(tt, ["=", tail[-1], ";"]),
                key="cursor-machine|the generated block does not end with the root id", detail=tt[-12:], nontrivial="cm-root")
+    # (8) code is generated only by the templates analysed above: no other function of the macro crate emits tokens of its own
+    emitters = sorted({k for k, f2 in prog.fns.items() if "mir" in f2 and any(rules.callee_name(t["callee"]).startswith("quote::__private::push_") or rules.callee_name(t["callee"]).startswith("quote::__private::parse")
+                                                                            for _, t in prog.calls(f2))})
+    known = {f["key"], g["key"]}
+    stray = [k for k in emitters if k not in known and not any(k.startswith(kn + "::{closure") for kn in known)]
+    run.ob("generators", "tokens are emitted only by the analysed templates (%s): %s" % (sorted(k.rsplit("::", 1)[-1] for k in known), emitters), not stray,
+           key="generators|code is also generated in %s" % ",".join(stray), detail=emitters, nontrivial="generators", sample=True)
     # (4) API named by the templates
     ids_tree = [s for _, s in idents_of(prog, f)]
     ids_act = [s for _, s in idents_of(prog, g)]
